@@ -69,6 +69,10 @@ type rootNodeLoc struct {
 
 	reclaimMark node // Address is used as a sentinel.
 
+	// True once a newer version was published from this one.  The two
+	// then share nodes, so only nodes marked reclaimable may be freed.
+	superseded bool
+
 	// We might own a reference count on another Collection/rootNodeLoc.
 	// When our reference drops to 0 and we're free'd, then also release
 	// our reference count on the next guy in the chain.
@@ -93,7 +97,6 @@ func (t *Collection) closeCollection() { // Just "close" is a keyword.
 	r := t.root
 	t.root = nil
 	t.rootLock.Unlock()
-	t.reclaimMarkUpdate(r.root, nil, &r.reclaimMark)
 	if r != nil {
 		t.rootDecRef(r)
 	}
@@ -775,6 +778,9 @@ func (t *Collection) rootCAS(prev, next *rootNodeLoc) bool {
 		return false // TODO: Callers need to release resources.
 	}
 	t.root = next
+	if prev != nil {
+		prev.superseded = true
+	}
 
 	if prev != nil && prev.refs > 2 {
 		// Since the prev is in-use, hook up its chain to disallow
@@ -813,6 +819,11 @@ func (t *Collection) rootDecRefUnlocked(r *rootNodeLoc) {
 	}
 	if r.chainedCollection != nil && r.chainedRootNodeLoc != nil {
 		r.chainedCollection.rootDecRefUnlocked(r.chainedRootNodeLoc)
+	}
+	if !r.superseded {
+		// The last handle on the newest version is gone, so nobody can
+		// reach its cached tree anymore; all of it is reclaimable.
+		markAllReclaimableUnlocked(r.root, &r.reclaimMark)
 	}
 	t.reclaimNodesUnlocked(r.root.Node(), &r.reclaimLater, &r.reclaimMark)
 	for i := 0; i < len(r.reclaimLater); i++ {
